@@ -12,12 +12,12 @@ K_CONTEXT = [
 PROPS = {
     'C02': {'units': ['expr', 'lower', 'opt', 'fuse', 'fvalid', 'optm', 'run19'], 'kani': K_ANALYSIS + [{'crate': 'p3-circuit', 'harness': 'c02_allocator_monotone'}]},
     'C03': {'units': ['opt', 'fuse', 'fvalid', 'optm'], 'kani': K_ANALYSIS},
-    'C19': {'units': ['run19'], 'kani': K_CONTEXT},
+    'C19': {'units': ['run19', 'pexec'], 'kani': K_CONTEXT},
     'C20': {'units': ['gad', 'quot', 'fri', 'periodic'], 'kani': [], 'only': {'fri': r'evaluate_polynomial|circuit_exp_by_constant|lemma_'}},
     'C07': {'units': ['fri', 'shape', 'fold', 'fchain', 'fquery', 'evpts', 'openin'], 'kani': [], 'only': {'shape': r'verify_fri_circuit'}, 'exclude': r'possible (bit shift|arithmetic)'},
     'C05': {'units': ['chal', 'coef'], 'kani': [], 'exclude': r'canonical_width', 'only': {'coef': r'select_path'}},
     'C06': {'units': ['bind', 'pchain'], 'kani': []},
-    'C17': {'units': ['cache'], 'kani': []},
+    'C17': {'units': ['cache', 'rcplug'], 'kani': []},
     'C10': {'units': ['sched', 'tracegen', 'ptrace', 'vrfy'], 'kani': []},
     'C18': {'units': ['dsu', 'order', 'pphase', 'fvalid'], 'kani': []},
     'C14': {'units': ['pack', 'pack2', 'pack3'], 'kani': []},
@@ -26,7 +26,7 @@ PROPS = {
     'C13': {'units': ['sym', 'symx'], 'kani': []},
     'C09': {'units': ['prep', 'mult', 'pread', 'pphase', 'ptrace'], 'kani': []},
     'C08': {'units': ['mmcs', 'hash', 'mbind', 'vbatch', 'vbatchx'], 'kani': []},
-    'C16': {'units': ['meta', 'vrfy', 'serde16', 'manif'], 'kani': []},
+    'C16': {'units': ['meta', 'vrfy', 'serde16', 'manif', 'rcplug'], 'kani': []},
     'C11': {'units': ['air', 'alu', 'run19', 'tracegen', 'pchain'], 'kani': [], 'only': {'run19': r'execute_alu_op'}},
 }
 
